@@ -244,6 +244,22 @@ def _run_ops(script, res, trace, cs, chain, stored, ops, base, cm, miner=None):
                 return
             cs = cm.coinstate
             new = [b_ for h_, b_ in cs.block_by_hash.items() if h_ not in chain.blocks]
+            # did the hash win?  decided here from the candidate itself (parent's ancestry taken from the reference's view)
+            won = None
+            try:
+                from skepticoin.datatypes import Block as _B, BlockHeader as _BH
+                txs_ = watcher.mining_args[0][-1]
+                view_ = W.view_at(cs, summary.previous_block_hash)
+                ev_ = consensus.construct_pow_evidence_after_scrypt(consensus.construct_summary_hash(summary, summary.height), view_,
+                                                                    summary, summary.height, txs_)
+                cand_ = _B(_BH(summary, ev_), txs_)
+                won = cand_.hash() < cand_.target
+            except Exception:
+                won = None
+            if won and not new:
+                res.violate(PROP, 'C04/found-block-not-stored', 'the node\'s miner found a block (id below target) on a stored parent, but it is '
+                            'not among the stored blocks afterwards: its children will count as out of order')
+                return
             if not new:
                 res.bump('mined_hash_not_below_target')
                 # nothing arrived; everything stored before must still be there
@@ -290,7 +306,11 @@ def _run_ops(script, res, trace, cs, chain, stored, ops, base, cm, miner=None):
             res.violate(PROP, 'C04/arrival-raised', 'adding a block assembled by the node on a stored parent raised %s' % type(e).__name__)
             return
         if cm is not None:
-            cm.set_coinstate(cs, validated=validated)
+            try:
+                cm.set_coinstate(cs, validated=validated)
+            except Exception as e:
+                res.violate(PROP, 'C04/arrival-raised', 'installing the state after an arrival in the node\'s chain manager raised %s' % type(e).__name__)
+                return
             cs = cm.coinstate
         chain.add(blk)
         stored.append(bid)
